@@ -234,7 +234,9 @@ fn first_diff(a: &[(String, String)], b: &[(String, String)]) -> Option<(String,
 
 /// drop empty-vs-absent differences the writer documents / cannot express: a missing guid becomes ""
 fn normalise(v: Vec<(String, String)>) -> Vec<(String, String)> {
-    v
+    // add_pointcloud/add_image take the GUID as &str: "no GUID" cannot be expressed through the API,
+    // so an absent GUID (not conforming to the standard anyway) and an empty one are the same content
+    v.into_iter().map(|(k, val)| if k.ends_with(".guid") && val == "-" { (k, "\"\"".to_string()) } else { (k, val) }).collect()
 }
 
 pub fn run(a: &Args, rep: &mut Reporter) {
